@@ -253,6 +253,14 @@ pub mod prelude {
     pub assume_specification<T: Copy> [Option::<&T>::copied] (o: Option<&T>) -> (r: Option<T>)
         ensures r == (match o { Some(x) => Some(*x), None => None });
 
+    // ---- std::fmt::Formatter as a text sink (C15: Shell quoting)
+    /// A-std-fmt: the text written to a formatter so far
+    pub uninterp spec fn fmt_out(f: std::fmt::Formatter<'_>) -> Seq<char>;
+    pub assume_specification<'a> [<std::fmt::Formatter<'a> as std::fmt::Write>::write_char] (f: &mut std::fmt::Formatter<'a>, c: char) -> (r: Result<(), std::fmt::Error>)
+        ensures r is Ok ==> fmt_out(*final(f)) == fmt_out(*old(f)).push(c);
+    pub assume_specification<'a> [std::fmt::Formatter::<'a>::write_str] (f: &mut std::fmt::Formatter<'a>, s: &str) -> (r: Result<(), std::fmt::Error>)
+        ensures r is Ok ==> fmt_out(*final(f)) == fmt_out(*old(f)) + s@;
+
     /// bpaf::meta_youmean::Suggestion: opaque (T8)
     #[verifier::external_body]
     pub struct Suggestion { _opaque: () }
@@ -1015,6 +1023,28 @@ pub mod spec {
     pub open spec fn ctl(b: u8) -> bool { b == 46 || b == 39 }
     /// fragments that carry user text of the page body
     pub open spec fn body_meta(m: Escape) -> bool { m == Escape::Special || m == Escape::SpecialNoNewline }
+
+    // ---- shell quoting (src/complete_shell.rs; C15)
+    /// the four chars `'\''` that stand for one single quote inside a single-quoted shell word
+    pub open spec fn q_lit() -> Seq<char> { seq!['\'', '\\', '\'', '\''] }
+    pub open spec fn q_step(acc: Seq<char>, c: char) -> Seq<char> { if c == '\'' { acc + q_lit() } else { acc.push(c) } }
+    pub open spec fn q_acc(pre: Seq<char>, s: Seq<char>, n: int) -> Seq<char> decreases n { if n <= 0 { pre } else { q_step(q_acc(pre, s, n - 1), s[n - 1]) } }
+    /// `pre` followed by `s` written as one single-quoted shell word
+    pub open spec fn quoted(pre: Seq<char>, s: Seq<char>) -> Seq<char> { q_acc(pre.push('\''), s, s.len() as int).push('\'') }
+
+    /// how a POSIX shell reads a word: single-quoted stretches are literal, `\c` outside quotes is the char c, anything else outside
+    /// quotes is not plain data (word splitting, expansion, operators) and makes the reading fail
+    pub struct ShSt { pub in_q: bool, pub esc: bool, pub ok: bool, pub out: Seq<char> }
+    pub open spec fn sh_step(st: ShSt, c: char) -> ShSt {
+        if !st.ok { st }
+        else if st.esc { ShSt { esc: false, out: st.out.push(c), ..st } }
+        else if st.in_q { if c == '\'' { ShSt { in_q: false, ..st } } else { ShSt { out: st.out.push(c), ..st } } }
+        else if c == '\'' { ShSt { in_q: true, ..st } }
+        else if c == '\\' { ShSt { esc: true, ..st } }
+        else { ShSt { ok: false, ..st } }
+    }
+    pub open spec fn sh_run(st: ShSt, w: Seq<char>, n: int) -> ShSt decreases n { if n <= 0 { st } else { sh_step(sh_run(st, w, n - 1), w[n - 1]) } }
+    pub open spec fn sh_start() -> ShSt { ShSt { in_q: false, esc: false, ok: true, out: Seq::empty() } }
 }
 
 pub mod lemmas {
@@ -3127,6 +3157,24 @@ proof {
     assert(out@ =~= out_f + out@.skip(out_f.len() as int));
     done = d2;
 }
+//@@ end
+
+// ---- shell quoting (C15; feature = "autocomplete" only)
+//@@ type src/complete_shell.rs | struct Shell
+//@@ unit complete_shell.Shell tags= cfg=autocomplete
+//@@ end
+
+//@@ fn src/complete_shell.rs | impl Display for Shell | fn fmt
+//@@ unit complete_shell.Shell.fmt tags=C15,C04 inherent loops=1 cfg=autocomplete
+//@@ ret r
+//@@ spec
+        ensures r is Ok ==> fmt_out(*final(f)) == quoted(fmt_out(*old(f)), self.0@), // #writes_the_text_as_one_single_quoted_word
+//@@ insert after 1 `for c in`
+verif_it:
+//@@ loop 1
+            invariant fmt_out(*f) == q_acc(fmt_out(*old(f)).push('\''), self.0@, verif_it.index@ as int),
+//@@ loopbody 1
+proof { reveal_strlit("'\\''"); assert("'\\''"@ =~= q_lit()); }
 //@@ end
 
 // ---- adjacent groups (C19)
